@@ -117,6 +117,7 @@ fn real_main() -> i32 {
     let start = Instant::now();
     let mut ctx = Ctx::new(&prop_id, tier, seed, &config_name(), shard);
     ctx.journal = journal;
+    ctx.out_path = out.clone();
 
     if let Some(path) = replay {
         let text = match std::fs::read_to_string(&path) {
